@@ -43,8 +43,10 @@ def run(tier, argv):
     with open(cases, "w") as f:
         for src in [raw, work.path("gen2.txt"), rawo, raw5, work.path("gen4.txt")] + ([work.path("gen3.txt")] if not quick else []):
             for l in vlib.tagged_file(src, "@@CASE"):
-                f.write(l + "\n")
-                n += 1
+                # the fixed graphs of Level 5 go through all three ways of handing the types over (the driver picks by case index mod 3)
+                for _rep in range(3 if src == raw5 else 1):
+                    f.write(l + "\n")
+                    n += 1
                 c = json.loads(l)
                 wants[c["want"]] = wants.get(c["want"], 0) + 1
                 if n % 300 == 5:
@@ -96,7 +98,7 @@ def run(tier, argv):
     rep.cov["traces_validated_against_impl"] = results
     rep.cov["exhaustive"] = True
     rep.cov["rule"] = ("all type graphs over %s user types with bodies from the reference-form family (alias, or-shortcut, required/optional property, array item, "
-                       "missing names%s) x 2 roots x 2 protocols (mesh: every type gets every type; star: types added to the root only)"
+                       "missing names%s) x 2 roots x 2 protocols (mesh: every type gets every type - for every third graph the root only gets the types its text names, for every third one every schema only the ones its own text names; star: types added to the root only)"
                        % (consts["NTypes"], "" if quick else ", or-rule member, additionalProperties type"))
     return rep, bad
 
@@ -127,7 +129,7 @@ def finish(rep, bad):
         rest.append(b)
     bad = rest
     for b in bad[:40]:
-        rep.violation(b, "%s | protocol %s | root %s | %s | want %s check %s" % (b["bad"], "mesh" if b.get("mesh") else "star", str(b.get("schema", "")).replace("\n", " ")[:80],
+        rep.violation(b, "%s | protocol %s | root %s | %s | want %s check %s" % (b["bad"], ("mesh, handed down: %s" % b.get("handed") if b.get("handed") else "mesh") if b.get("mesh") else "star", str(b.get("schema", "")).replace("\n", " ")[:80],
                                                                                "; ".join(b.get("types") or [])[:200], b.get("want"), json.dumps(b.get("check"))[:140]))
     rep.violations = len(bad)
     rep.finish()
